@@ -353,14 +353,6 @@ package shmipc
 //@   modifies s.communicationVersion
 
 // constructors of the shared-memory managers (layout verified under C03; used here by contract only)
-//@ func mappingQueueManager
-//@   ensures  r1 == nil ==> r0 != nil
-//@   modifies heap
-
-//@ func mappingQueueManagerMemfd
-//@   ensures  r1 == nil ==> r0 != nil
-//@   modifies heap
-
 //@ func getGlobalBufferManager
 //@   ensures  r1 == nil ==> r0 != nil
 //@   modifies heap
@@ -448,3 +440,192 @@ package shmipc
 //@   loop 0 invariant 0 <= written && written <= size && size == len(data) && written == sent
 //@   modifies nothing
 
+// ---------------------------------------------------------------------------
+// C03 / C01 / C02: layout of the buffer manager and its free lists (buffer_manager.go)
+// ---------------------------------------------------------------------------
+//@ arith mulMono(i int, n int, s int): bool = 0 <= i && i < n && s > 0 ==> i*s + s <= n*s && 0 <= i*s
+//@ arith mulStep(i int, s int): bool = (i+1)*s == i*s + s
+
+// listGeom: where a free list with num slots of capacity cpb lives inside the mapping mem when its
+// 36-byte header starts at byte off: header words, slot region, recorded offsets - all inside mem.
+//@ pure listGeom(b *bufferList, mem []byte, off int, num int, cpb int): bool =
+//@ |     ptrAt(b.size, mem, off) && ptrAt(b.cap, mem, off + 4) && ptrAt(b.head, mem, off + 8) && ptrAt(b.tail, mem, off + 12) && ptrAt(b.capPerBuffer, mem, off + 16)
+//@ |  && sameMem(b.bufferRegion, mem, off + 36) && len(b.bufferRegion) == num * (cpb + 20)
+//@ |  && b.bufferRegionOffsetInShm == off + 36 && b.offsetInShm == off
+//@ |  && 0 <= off && off + 36 + num * (cpb + 20) <= len(mem)
+
+// slotInit: slot k of a freshly created list: capacity stamped, empty, linked to slot k+1 (the last one has no link)
+//@ pure slotInit(r []byte, k int, num int, cpb int): bool = mem32(r, k*(cpb+20)) == cpb && mem32(r, k*(cpb+20) + 4) == 0 && mem32(r, k*(cpb+20) + 8) == 0
+//@ |  && (k < num - 1 ==> mem32(r, k*(cpb+20) + 12) == (k+1)*(cpb+20) && mem8(r, k*(cpb+20) + 16) % 2 == 1)
+
+//@ func countBufferListMemSize
+//@   ensures  result == uint32(36 + bufferNum * (capPerBuffer + 20))
+//@   modifies nothing
+
+//@ func createFreeBufferList
+//@   requires len(mem) < 4294967296 && region(mem) > 0
+//@   requires offsetInMem + 36 + bufferNum * (capPerBuffer + 20) < 4294967296   // offsets do not wrap in uint32 (established by createBufferManager; see DESIGN finding F3)
+//@   ensures  r1 != nil ==> r0 == nil
+//@   ensures  r1 == nil ==> r0 != nil && fresh(r0) && bufferNum >= 1 && capPerBuffer >= 1 && listGeom(r0, mem, offsetInMem, bufferNum, capPerBuffer)
+//@   ensures  r1 == nil ==> *r0.size == bufferNum && *r0.cap == bufferNum && *r0.head == 0 && *r0.tail == (bufferNum - 1) * (capPerBuffer + 20) && *r0.capPerBuffer == capPerBuffer
+//@   ensures[C01,C02]  r1 == nil ==> forall k in [0, bufferNum): using(mulMono(k, bufferNum, capPerBuffer + 20)) ==> slotInit(r0.bufferRegion, k, bufferNum, capPerBuffer)
+//@   ensures[C01,C02]  r1 == nil ==> mem8(r0.bufferRegion, (bufferNum - 1) * (capPerBuffer + 20) + 16) == 0
+//@   loop 0 invariant 0 <= i && i <= bufferNum && current == i * (capPerBuffer + 20) && b != nil
+//@   loop 0 invariant listGeom(b, mem, offsetInMem, bufferNum, capPerBuffer) && offsetInMem + 36 + bufferNum * (capPerBuffer + 20) < 4294967296 && 0 < capPerBuffer
+//@   loop 0 invariant *b.size == bufferNum && *b.cap == bufferNum && *b.head == 0 && *b.tail == (bufferNum - 1) * (capPerBuffer + 20) && *b.capPerBuffer == capPerBuffer
+//@   loop 0 invariant[C01,C02] forall k in [0, i): using(mulMono(k, i, capPerBuffer + 20)) ==> slotInit(b.bufferRegion, k, bufferNum, capPerBuffer)
+//@   loop 0 apply mulMono(i, bufferNum, capPerBuffer + 20)
+//@   loop 0 apply mulStep(i, capPerBuffer + 20)
+//@   loop 0 modifies mem[offsetInMem + 36 : offsetInMem + 36 + bufferNum * (capPerBuffer + 20)]
+//@   modifies mem[offsetInMem : offsetInMem + 36 + bufferNum * (capPerBuffer + 20)]
+
+// mappingFreeBufferList: reads cap / capPerBuffer from the header and rebuilds the same geometry, or fails
+//@ func mappingFreeBufferList
+//@   requires len(mem) < 4294967296 && region(mem) > 0
+//@   ensures  r1 != nil ==> r0 == nil
+//@   ensures  r1 == nil ==> r0 != nil && fresh(r0) && offset + 36 <= len(mem) && r0.offsetInShm == offset && r0.bufferRegionOffsetInShm == uint32(offset + 36)
+//@   ensures  r1 == nil ==> 36 + mem32(mem, offset + 4) * (mem32(mem, offset + 16) + 20) < 4294967296 ==> listGeom(r0, mem, offset, mem32(mem, offset + 4), mem32(mem, offset + 16))
+//@   ensures  offset + 36 + mem32(mem, offset + 4) * (mem32(mem, offset + 16) + 20) <= len(mem) && offset + 36 <= len(mem) ==> r1 == nil
+//@   modifies nothing
+
+// selfGeom: a list's words and slot region sit where its own recorded offsets say, inside mem
+//@ pure selfGeom(b *bufferList, mem []byte): bool = b != nil
+//@ |  && ptrAt(b.size, mem, b.offsetInShm) && ptrAt(b.cap, mem, b.offsetInShm + 4) && ptrAt(b.head, mem, b.offsetInShm + 8) && ptrAt(b.tail, mem, b.offsetInShm + 12) && ptrAt(b.capPerBuffer, mem, b.offsetInShm + 16)
+//@ |  && sameMem(b.bufferRegion, mem, b.offsetInShm + 36) && b.bufferRegionOffsetInShm == b.offsetInShm + 36
+//@ |  && b.offsetInShm + 36 + len(b.bufferRegion) <= len(mem)
+//@ pure listEnd(b *bufferList): int = b.offsetInShm + 36 + len(b.bufferRegion)
+
+//@ arith mulDistr(c int, a int, b int): bool = c*(a+b) == c*a + c*b
+//@ arith mulMonoR(c int, a int, b int): bool = 0 <= c && a <= b ==> c*a <= c*b
+
+// createBufferManager: the lists are laid out one after the other behind the 8-byte manager header,
+// each inside mem; the header records their number and the used length.
+// ghost lastEnd: end offset of the most recently created list; ghost chainOK: every created list so far
+// started exactly where its predecessor ended (the first at offset+8) and satisfies selfGeom.
+//@ func createBufferManager
+//@   requires len(listSizePercent) >= 1 && len(listSizePercent) < 65536 && len(mem) < 4294967296 && region(mem) > 0
+//@   requires len(mem) - offset - 36 * len(listSizePercent) - 8 >= 0     // room for the headers (not validated by VerifyConfig: see DESIGN F3)
+//@   requires forall j in [0, len(listSizePercent)): listSizePercent[j] != nil && listSizePercent[j].Size + 20 < 4294967296 && listSizePercent[j].Percent <= 100
+//@   ghost var lastEnd int = offset + 8
+//@   ghost var chainOK bool = true
+//@   at call createFreeBufferList#0 ghost chainOK := chainOK && (r1 == nil ==> r0.offsetInShm == lastEnd && selfGeom(r0, mem))
+//@   at call createFreeBufferList#0 ghost lastEnd := ite(r1 == nil, listEnd(r0), lastEnd)
+//@   at call createFreeBufferList#0 hint pair != nil && pair.Percent <= 100 && pair.Size + 20 < 4294967296 && sumPercent <= 100 && sumPercent >= pair.Percent
+//@   at call createFreeBufferList#0 hint 100 * (bufferNum * (pair.Size + 20)) <= bufferRegionCap * pair.Percent
+//@   at call createFreeBufferList#0 hint using(mulDistr(bufferRegionCap, sumPercent - pair.Percent, pair.Percent)) ==> bufferRegionCap * sumPercent == bufferRegionCap * (sumPercent - pair.Percent) + bufferRegionCap * pair.Percent
+//@   at call createFreeBufferList#0 hint using(mulMonoR(bufferRegionCap, sumPercent, 100)) ==> bufferRegionCap * sumPercent <= bufferRegionCap * 100
+//@   at call createFreeBufferList#0 hint 100 * (hadUsedOffset - offset - 8 - 36 * rangeindex + bufferNum * (pair.Size + 20)) <= bufferRegionCap * sumPercent
+//@   at call createFreeBufferList#0 hint hadUsedOffset + 36 + bufferNum * (pair.Size + 20) <= len(mem)
+//@   ensures  r1 != nil ==> r0 == nil
+//@   ensures  r1 == nil ==> r0 != nil && fresh(r0) && r0.mem == mem && len(r0.lists) == len(listSizePercent)
+//@   ensures  r1 == nil ==> mem16(mem, offset) == len(listSizePercent)
+//@   exit     r1 == nil ==> chainOK && mem32(mem, offset + 4) == lastEnd - 8 && lastEnd <= len(mem)
+//@   loop 0 invariant -1 <= rangeindex && rangeindex < len(listSizePercent) && len(freeBufferLists) == rangeindex + 1 && len(freeBufferLists) <= cap(freeBufferLists) && cap(freeBufferLists) == len(listSizePercent)
+//@   loop 0 invariant sumPercent <= 100 && offset + 8 + 36 * (rangeindex + 1) <= hadUsedOffset && hadUsedOffset <= len(mem)
+//@   loop 0 invariant 100 * (hadUsedOffset - offset - 8 - 36 * (rangeindex + 1)) <= bufferRegionCap * sumPercent && bufferRegionCap == len(mem) - offset - 36 * len(listSizePercent) - 8
+//@   loop 0 invariant chainOK && lastEnd == hadUsedOffset
+//@   loop 0 invariant region(freeBufferLists) == entry(region(freeBufferLists)) && off(freeBufferLists) == entry(off(freeBufferLists))
+//@   loop 0 invariant mem16(mem, offset) == len(listSizePercent)
+//@   loop 0 modifies mem[offset + 8 : len(mem)], freeBufferLists[0 : cap(freeBufferLists)]
+//@   unreachable-returns 1   // 'len(mem) <= offset' is excluded by the precondition
+
+// mappingBufferManager: reads the list count, then maps list after list, each where the previous one
+// ends according to the cap/capPerBuffer words it finds in the header (countBufferListMemSize).
+//@ func mappingBufferManager
+//@   unreachable-returns 1   // the first length check is excluded by the precondition
+//@   requires len(mem) < 4294967296 && region(mem) > 0 && bufferRegionStartOffset + 8 <= len(mem)   // the mapping holds at least the 8-byte manager header
+//@   ghost var chainOK bool = true
+//@   ghost var nextOff int = bufferRegionStartOffset + 8
+//@   at call mappingFreeBufferList#0 ghost chainOK := chainOK && (r1 == nil ==> r0.offsetInShm == nextOff)
+//@   at call countBufferListMemSize#0 ghost nextOff := uint32(nextOff + r0)
+//@   ensures  r1 != nil ==> r0 == nil
+//@   ensures  r1 == nil ==> r0 != nil && fresh(r0) && r0.mem == mem && len(r0.lists) == mem16(mem, bufferRegionStartOffset) && len(r0.lists) >= 1
+//@   exit     r1 == nil ==> chainOK
+//@   loop 0 invariant 0 <= i && i <= listNum && listNum == mem16(mem, bufferRegionStartOffset) && listNum >= 1 && len(freeLists) == i && cap(freeLists) == listNum && chainOK && nextOff == uint32(bufferRegionStartOffset + hadUsedOffset)
+//@   loop 0 invariant region(freeLists) == entry(region(freeLists)) && off(freeLists) == entry(off(freeLists))
+//@   loop 0 invariant forall j in [0, i): freeLists[j] != nil
+//@   loop 0 modifies freeLists[0 : cap(freeLists)]
+
+// lemmaCreateThenMapList: a peer that maps a list created with any (bufferNum, capPerBuffer, offset)
+// succeeds and reconstructs the same header words, slot region and offsets. Verified from the two
+// contracts only (modular): it pins create and mapping to the same geometry predicate.
+func lemmaCreateThenMapList(bufferNum, capPerBuffer uint32, mem []byte, off uint32) {
+	b, err := createFreeBufferList(bufferNum, capPerBuffer, mem, off)
+	if err != nil {
+		return
+	}
+	m, err2 := mappingFreeBufferList(mem, off)
+	_, _, _ = b, m, err2
+}
+
+//@ lemma lemmaCreateThenMapList
+//@   requires len(mem) < 4294967296 && region(mem) > 0
+//@   requires off + 36 + bufferNum * (capPerBuffer + 20) < 4294967296
+//@   exit     err == nil ==> err2 == nil && m != nil
+//@   exit     err == nil ==> m.size == b.size && m.cap == b.cap && m.head == b.head && m.tail == b.tail && m.capPerBuffer == b.capPerBuffer
+//@   exit     err == nil ==> sameMem(m.bufferRegion, b.bufferRegion, 0) && len(m.bufferRegion) == len(b.bufferRegion) && m.bufferRegionOffsetInShm == b.bufferRegionOffsetInShm && m.offsetInShm == b.offsetInShm
+//@   exit     err == nil ==> *m.cap == bufferNum && *m.capPerBuffer == capPerBuffer
+
+// lemmaCreateThenMapQueue: mapping a queue created in data yields the same cursor words and ring.
+func lemmaCreateThenMapQueue(data []byte, cap uint32) {
+	q := createQueueFromBytes(data, cap)
+	m := mappingQueueFromBytes(data)
+	_, _ = q, m
+}
+
+//@ lemma lemmaCreateThenMapQueue
+//@   requires queueBytesOK(data, cap)
+//@   exit     m.head == q.head && m.tail == q.tail && m.workingFlag == q.workingFlag && m.cap == q.cap && sameMem(m.queueBytesOnMemory, q.queueBytesOnMemory, 0) && len(m.queueBytesOnMemory) == len(q.queueBytesOnMemory)
+
+// --- the pair of IO queues: creator puts its send queue in the first half, its receive queue in the
+// second half; the mapper takes them the other way round (cross-wiring)
+//@ pure queueAt(q *queue, mem []byte, base int, c int): bool = q != nil && q.cap == c && ptrAt(q.head, mem, base + 4) && ptrAt(q.tail, mem, base + 12) && ptrAt(q.workingFlag, mem, base + 20)
+//@ |  && sameMem(q.queueBytesOnMemory, mem, base + 24) && len(q.queueBytesOnMemory) == 12 * c
+
+//@ func countQueueMemSize
+//@   ensures  result == 24 + 12 * queueCap
+//@   modifies nothing
+
+//@ func createQueueManagerWithMemFd
+//@   requires 24 + 12 * queueCap < 4294967296   // not validated by VerifyConfig (needs an 8 GiB queue file to violate); see DESIGN
+//@   ensures  r1 != nil ==> r0 == nil
+//@   ensures  r1 == nil ==> r0 != nil && fresh(r0) && len(r0.mem) == 2 * (24 + 12 * queueCap)
+//@   ensures  r1 == nil ==> queueAt(r0.sendQueue, r0.mem, 0, queueCap) && queueAt(r0.recvQueue, r0.mem, 24 + 12 * queueCap, queueCap)
+//@   ensures  r1 == nil ==> wfQueue(r0.sendQueue) && wfQueue(r0.recvQueue) && *r0.sendQueue.tail == 0 && *r0.recvQueue.tail == 0
+//@   loop 0 invariant 0 <= i && i <= len(mem)
+//@   loop 0 modifies mem[0 : len(mem)]
+
+//@ func createQueueManager
+//@   requires 24 + 12 * queueCap < 4294967296
+//@   ensures  r1 != nil ==> r0 == nil
+//@   ensures  r1 == nil ==> r0 != nil && fresh(r0) && len(r0.mem) == 2 * (24 + 12 * queueCap)
+//@   ensures  r1 == nil ==> queueAt(r0.sendQueue, r0.mem, 0, queueCap) && queueAt(r0.recvQueue, r0.mem, 24 + 12 * queueCap, queueCap)
+//@   ensures  r1 == nil ==> wfQueue(r0.sendQueue) && wfQueue(r0.recvQueue) && *r0.sendQueue.tail == 0 && *r0.recvQueue.tail == 0
+//@   loop 0 invariant 0 <= i && i <= len(mem)
+//@   loop 0 modifies mem[0 : len(mem)]
+
+// The mapper trusts the file it maps: assumption "the peer runs the same code" made explicit at the
+// two calls that read the queue headers (a file not laid out by createQueueManager* is out of scope).
+//@ func mappingQueueManagerMemfd
+//@   unreachable-returns 1   // the arm64 alignment check
+//@   at call mappingQueueFromBytes#0 assume mappingSize == 2 * (24 + 12 * mem32(mem, 0)) && queueBytesOK(mem[mappingSize/2:], mem32(mem, mappingSize/2)) && mem32(mem, mappingSize/2) == mem32(mem, 0) && queueBytesOK(mem[:mappingSize/2], mem32(mem, 0))
+//@   ensures  r1 != nil ==> r0 == nil
+//@   ensures  r1 == nil ==> r0 != nil && fresh(r0) && len(r0.mem) == 2 * (24 + 12 * mem32(r0.mem, 0))
+//@   ensures  r1 == nil ==> queueAt(r0.recvQueue, r0.mem, 0, mem32(r0.mem, 0)) && queueAt(r0.sendQueue, r0.mem, 24 + 12 * mem32(r0.mem, 0), mem32(r0.mem, 0))
+
+//@ func mappingQueueManager
+//@   unreachable-returns 1   // the arm64 alignment check
+//@   at call mappingQueueFromBytes#0 assume mappingSize == 2 * (24 + 12 * mem32(mem, 0)) && queueBytesOK(mem[mappingSize/2:], mem32(mem, mappingSize/2)) && mem32(mem, mappingSize/2) == mem32(mem, 0) && queueBytesOK(mem[:mappingSize/2], mem32(mem, 0))
+//@   ensures  r1 != nil ==> r0 == nil
+//@   ensures  r1 == nil ==> r0 != nil && fresh(r0) && len(r0.mem) == 2 * (24 + 12 * mem32(r0.mem, 0))
+//@   ensures  r1 == nil ==> queueAt(r0.recvQueue, r0.mem, 0, mem32(r0.mem, 0)) && queueAt(r0.sendQueue, r0.mem, 24 + 12 * mem32(r0.mem, 0), mem32(r0.mem, 0))
+
+// VerifyConfig: what an accepted configuration guarantees to the layout code
+//@ func VerifyConfig
+//@   requires config != nil && len(config.BufferSliceSizes) < 65536
+//@   requires forall j in [0, len(config.BufferSliceSizes)): config.BufferSliceSizes[j] != nil
+//@   ensures  result == nil ==> config.ShareMemoryBufferCap >= 1048576 && len(config.BufferSliceSizes) >= 1
+//@   ensures  result == nil ==> forall j in [0, len(config.BufferSliceSizes)): config.BufferSliceSizes[j].Size <= config.ShareMemoryBufferCap && config.BufferSliceSizes[j].Percent <= 100
+//@   loop 0 invariant -1 <= rangeindex && rangeindex < len(config.BufferSliceSizes) && 0 <= sum && sum <= 4294967296 * (rangeindex + 1)
+//@   loop 0 invariant forall j in [0, rangeindex + 1): config.BufferSliceSizes[j].Size <= config.ShareMemoryBufferCap && config.BufferSliceSizes[j].Percent <= sum
+//@   modifies nothing
